@@ -1,6 +1,5 @@
 package main
 
-func runConc(a []string)   { panic("not built yet") }
 func runSeg(a []string)    { panic("not built yet") }
 func runPure(a []string)   { panic("not built yet") }
 func damage(st *hstate, a []string) []string { return []string{"err UnknownOp"} }
